@@ -577,6 +577,23 @@ fn forced_producer_case(case: u64, rng: &mut Rng, rep: &mut Report) {
     }
 }
 
+/// Forced schedule (shared, `tvmon::sched`): a merge of the previous writer generation ends after
+/// the successor has committed - nothing it still does may change what is published.
+fn stale_merge_case(case: u64, rng: &mut Rng, rep: &mut Report) {
+    rep.eval();
+    let dropped = rng.bool();
+    let out = tvmon::sched::stale_merge_schedule(rng, dropped);
+    for c in &out.counters {
+        rep.count(c, 1);
+    }
+    for (sig, d) in out.problems {
+        rep.violation(format!("stale-merge:{sig}"), json!({"case": case, "shape": out.shape, "detail": d}));
+    }
+    if out.forced {
+        rep.nontrivial(format!("stale-merge:{}", out.shape));
+    }
+}
+
 fn main() {
     let ctx = Ctx::from_env("C02", "exploration");
     let n_seq = ctx.scale(160, 6000) as u64;
@@ -584,6 +601,7 @@ fn main() {
     let mut rep = run_cases(&ctx, "seq", n_seq, seq_case);
     rep.merge(run_cases(&ctx, "producers", n_prod, producers_case));
     rep.merge(run_cases(&ctx, "forced-producers", ctx.scale(60, 3000) as u64, forced_producer_case));
+    rep.merge(run_cases(&ctx, "stale-merge", ctx.scale(40, 2000) as u64, stale_merge_case));
     simple_finish(
         &ctx,
         rep,
